@@ -1,5 +1,5 @@
 """C05 — no remote input can crash the proxy: panic-site unreachability in every encodable peer-fed decoder."""
-from specs import fragment
+from specs import fragment, codec
 
 
 def run(ck):
@@ -11,4 +11,11 @@ def run(ck):
         'panics inside havocked third-party callees (quinn, rustls, tokio, trust-dns, regex) are invisible',
     ]
     ck.out_of_scope += ['unbounded memory growth (read_until/read_line without limit)', 'stack depth', 'listener accept loops, TLS']
+    import contracts_async  # noqa
+    ck.plans.append(codec.replay_plan)
     fragment.run_all(ck, functional=False)
+    codec.spec_decode_address(ck)
+    codec.spec_from_buffer(ck)
+    codec.spec_read_head(ck)
+    codec.spec_decode_socks_frame(ck)
+    ck.post_filter = lambda o: not o.label.startswith(('C11/', 'C12/', 'C03/'))
